@@ -285,7 +285,13 @@ func runC03(ctx *core.Ctx, idx int) *core.Result {
 			n := 2 + r.Intn(6)
 			for i := 0; i < n; i++ {
 				a := g.Atom()
-				switch r.Intn(5) {
+				switch r.Intn(7) {
+				case 5:
+					// an instance inside the arguments of an instance that cannot be rewritten where it stands: the outer
+					// one stays, the inner one is a site of its own
+					fmt.Fprintf(&body, "\tdefer target(target(%s).Field)\n", a)
+				case 6:
+					fmt.Fprintf(&body, "\tgo target(wrap(target(%s), target(%s)))\n", a, g.Atom())
 				case 0:
 					fmt.Fprintf(&body, "\tdefer target(%s)\n", a)
 				case 1:
